@@ -1444,7 +1444,8 @@ def exec_for_std(spec, ip, s, env, f, ordinal):
     elif is_ref(it) and CLASSES[it.ty.cls].kind == "deque":
         ci = CLASSES[it.ty.cls]
         cn = ci.name
-        if spec.modifies is None or {(cn, "lo"), (cn, "hi"), (cn, "data")} & spec.modifies:
+        pinned = spec.modifies is None and getattr(spec, "pins_container", False)
+        if not pinned and (spec.modifies is None or {(cn, "lo"), (cn, "hi"), (cn, "data")} & spec.modifies):
             raise Unsupported("for-loop over a container that the loop frame allows to be resized")
         start = st.get(cn, "lo", it.t)
         more = lambda k: k < st.get(cn, "hi", it.t)
@@ -1462,6 +1463,13 @@ def exec_for_std(spec, ip, s, env, f, ordinal):
         if nm in env.vars:
             env.vars[nm] = generalize(ip, env.vars[nm], spec.local_types.get(nm))
     st.havoc(keys=spec.modifies)
+    pin = None
+    if isinstance(it, Sym) and is_ref(it) and CLASSES[it.ty.cls].kind == "deque" and spec.modifies is None:
+        # a loop whose body suspends (frame = everything) over a container the unit declares private: the container is
+        # the same at the head of every iteration -- assumed here, proved again after the body
+        e_ = ctx.loop_entry
+        pin = lambda: z3.And(*[st.get(cn, f_, it.t) == e_.f(cn, f_, it.t) for f_ in ("lo", "hi", "data")])
+        st.assume(pin())
     spec.after_havoc(ip, env)
     k = st.fresh("k", z3.IntSort())
     st.assume(k >= start)
@@ -1500,6 +1508,8 @@ def exec_for_std(spec, ip, s, env, f, ordinal):
         if extra:
             ctx.fail(f"{tag}:frame", "frame", f"loop body writes {sorted(extra)} outside its declared frame")
     ctx.loop_k = k + 1
+    if pin is not None:
+        ctx.oblige(f"{tag}:the_iterated_container_is_not_changed_by_the_body:preserved", pin(), "loop")
     for name, t in spec.inv(ip, env):
         ctx.oblige(f"{tag}:{name}:preserved", t, "loop")
     raise PathEnd("loop body done")
